@@ -144,8 +144,56 @@ fn main() {
                     c.count("sources_behind_a_prefix", 1);
                 }
             }
-            let inputs: BTreeMap<String, Vec<u8>> = files.iter().map(|f| (norm(&f.name), f.data.clone())).collect();
-            check(c, &cfg, &opt, &src, &dst, &inputs, embedded, ["generated", "generated", "not-listing-itself", "encrypted"][lfstyle as usize]);
+            let mut inputs: BTreeMap<String, Vec<u8>> = files.iter().map(|f| (norm(&f.name), f.data.clone())).collect();
+            // every sixth classic-table source has been extended in place by another session (MutableArchive), with names the
+            // builder itself would not be given by this workload: rooted names that start with a path separator
+            if idx % 6 == 4 && cfg.version <= 2 && lfstyle < 2 && !embedded {
+                let tmp = src.with_extension("ext.mpq");
+                let extra: [(&str, Vec<u8>); 2] = [("\\rooted.cfg", b"rooted = 1\r\n".to_vec()), ("\\Interface\\AddOns\\extra.toc", rng.bytes(300))];
+                let ok = std::fs::copy(&src, &tmp).is_ok()
+                    && trap(|| -> wow_mpq::Result<()> {
+                        let mut m = wow_mpq::MutableArchive::open(&tmp)?;
+                        for (n, d) in &extra {
+                            m.add_file_data(d, n, wow_mpq::AddFileOptions::new())?;
+                        }
+                        m.flush()
+                    }).map(|r| r.is_ok()).unwrap_or(false)
+                    // the extension itself is C06's subject: it is used only if the extended source reads back completely
+                    && Archive::open(&tmp).map(|mut a| {
+                        inputs.iter().all(|(n, d)| a.read_file(n).map(|g| g == *d).unwrap_or(false)) && extra.iter().all(|(n, d)| a.read_file(n).map(|g| g == *d).unwrap_or(false))
+                            && a.list().map(|l| extra.iter().all(|(n, _)| l.iter().any(|e| e.name == *n))).unwrap_or(false)
+                    }).unwrap_or(false);
+                if ok && std::fs::rename(&tmp, &src).is_ok() {
+                    for (n, d) in extra {
+                        inputs.insert(norm(n), d);
+                    }
+                    c.count("sources_extended_in_place_with_rooted_names", 1);
+                } else {
+                    let _ = std::fs::remove_file(&tmp);
+                    c.count("source_extensions_not_usable", 1);
+                }
+            }
+            // every fifth source has one member whose stored bytes were damaged after the build: it can no longer be delivered;
+            // what the summary reports must stay within what the source can deliver
+            let mut damaged: Option<String> = None;
+            if idx % 5 == 3 && !embedded {
+                if let Some(victim) = files.iter().find(|f| f.data.len() > 64) {
+                    let info = Archive::open(&src).ok().and_then(|a| a.find_file(&victim.name).ok().flatten());
+                    if let (Some(fi), Ok(mut bytes)) = (info, std::fs::read(&src)) {
+                        let (a, b) = (fi.file_pos as usize + 8, (fi.file_pos + fi.compressed_size) as usize);
+                        if a < b && b <= bytes.len() {
+                            for x in bytes[a..b].iter_mut() {
+                                *x = 0xA5;
+                            }
+                            if std::fs::write(&src, bytes).is_ok() {
+                                c.count("sources_with_a_damaged_member", 1);
+                                damaged = Some(norm(&victim.name));
+                            }
+                        }
+                    }
+                }
+            }
+            check(c, &cfg, &opt, &src, &dst, &inputs, embedded, ["generated", "generated", "not-listing-itself", "encrypted"][lfstyle as usize], damaged.as_deref());
             let _ = std::fs::remove_file(&src);
             let _ = std::fs::remove_file(&dst);
         });
@@ -168,7 +216,10 @@ fn faithful(dst: &std::path::Path, want: &BTreeMap<String, Vec<u8>>, all: &BTree
     }
 }
 
-fn check(c: &mut Case, cfg: &Cfg, opt: &Opt, src: &std::path::Path, dst: &std::path::Path, inputs: &BTreeMap<String, Vec<u8>>, embedded: bool, lf: &str) {
+/// `damaged`: a member whose stored bytes were overwritten after the build. Nothing is demanded of it (it may read as
+/// an error or as other bytes; neither is what was added), and a verifying rebuild may rightly refuse a result that lacks it.
+#[allow(clippy::too_many_arguments)]
+fn check(c: &mut Case, cfg: &Cfg, opt: &Opt, src: &std::path::Path, dst: &std::path::Path, inputs: &BTreeMap<String, Vec<u8>>, embedded: bool, lf: &str, damaged: Option<&str>) {
     // what the source holds, as read independently
     let mut sa = match Archive::open(src) {
         Ok(a) => a,
@@ -188,7 +239,11 @@ fn check(c: &mut Case, cfg: &Cfg, opt: &Opt, src: &std::path::Path, dst: &std::p
     let mut s_content: BTreeMap<String, Vec<u8>> = BTreeMap::new();
     let mut s_all: BTreeSet<String> = BTreeSet::new();
     let mut excluded = 0usize;
+    // listed entries the source can deliver at all (specials included), and listed entries it cannot
+    let mut deliverable = 0usize;
+    let mut undeliverable = 0usize;
     for e in &listed {
+        if trap(|| sa.read_file(&e.name)).map(|r| r.is_ok()).unwrap_or(false) { deliverable += 1 } else { undeliverable += 1 }
         s_all.insert(norm(&e.name));
         if e.name == "(signature)" {
             continue;
@@ -197,7 +252,7 @@ fn check(c: &mut Case, cfg: &Cfg, opt: &Opt, src: &std::path::Path, dst: &std::p
             excluded += 1;
             continue;
         }
-        if is_special(&e.name) {
+        if is_special(&e.name) || damaged == Some(norm(&e.name).as_str()) {
             continue; // specials are regenerated or carried; their bytes are not demanded
         }
         if let Ok(d) = sa.read_file(&e.name) {
@@ -234,7 +289,7 @@ fn check(c: &mut Case, cfg: &Cfg, opt: &Opt, src: &std::path::Path, dst: &std::p
             // library's own comparison of source and result is what failed — if the identical rebuild without verify
             // succeeds and the independent comparison finds its target faithful (every listed, non-excluded file identical,
             // nothing extra), the comparison reported a difference that does not exist.
-            if opt.verify && !opt.list_only && cfg.listfile && !s_content.is_empty() {
+            if opt.verify && !opt.list_only && cfg.listfile && !s_content.is_empty() && damaged.is_none() {
                 let dst2 = dst.with_extension("noverify.mpq");
                 let mut o2 = opt.to_options();
                 o2.verify = false;
@@ -275,6 +330,15 @@ fn check(c: &mut Case, cfg: &Cfg, opt: &Opt, src: &std::path::Path, dst: &std::p
     }
     if summary.extracted_files > s_all.len().max(listed.len()) + 2 && cfg.listfile {
         c.violate(format!("summary-extracted-more-than-listed|{sv}"), format!("summary says {} files extracted but the source lists {}", summary.extracted_files, listed.len()), json!({}));
+    }
+    // a file that cannot be read from the source cannot have been (or be going to be) extracted: dry run or not
+    if cfg.listfile && undeliverable > 0 {
+        c.count("summaries_checked_against_undeliverable_members", 1);
+        if summary.extracted_files > deliverable {
+            c.violate(format!("summary-extracted-more-than-deliverable|{sv}|list_only={}", opt.list_only as u8),
+                      format!("summary says {} files extracted (skipped {}), but only {deliverable} of the {} listed entries can be read from the source at all", summary.extracted_files, summary.skipped_files, listed.len()),
+                      json!({"source_files": summary.source_files, "undeliverable": undeliverable}));
+        }
     }
     if opt.list_only {
         c.count("list_only", 1);
@@ -330,7 +394,7 @@ fn check(c: &mut Case, cfg: &Cfg, opt: &Opt, src: &std::path::Path, dst: &std::p
                 c.violate(format!("target-has-extra-name|{sv}"), format!("target lists {:?} which the source does not list", e.name), json!({}));
                 break;
             }
-            if opt.skip_enc && !s_content.contains_key(&n) && s_all.contains(&n) && excluded > 0 {
+            if opt.skip_enc && !s_content.contains_key(&n) && s_all.contains(&n) && excluded > 0 && damaged != Some(n.as_str()) {
                 // an excluded (encrypted) file must not be in the target
                 c.violate(format!("excluded-file-present|{sv}"), format!("skip_encrypted was set but {:?} is in the target", e.name), json!({}));
                 break;
